@@ -5,7 +5,7 @@ mod elem;
 mod exec;
 mod parse;
 
-use elem::{disarm, ledger_begin_line, ledger_reset, Elem, E, Z};
+use elem::{disarm, ledger_begin_line, ledger_reset, Elem, E, F, Z};
 use exec::{resolve, vals, Exec, Pos, St};
 use parse::{parse_line, receiver_ok, Cmd, ItKind, Last, Op};
 use std::cell::RefCell;
@@ -105,6 +105,7 @@ fn parse_case(line: &str) -> Option<(String, &'static str)> {
         "elem=cell" => "cell",
         "elem=zst" => "zst",
         "elem=unit" => "unit",
+        "elem=nan" => "nan",
         _ => return None,
     };
     Some((t[1].to_string(), kind))
@@ -163,6 +164,7 @@ fn main() {
                 "u32" => run_case::<u32>(&mut io),
                 "cell" => run_case::<E>(&mut io),
                 "unit" => run_case::<()>(&mut io),
+                "nan" => run_case::<F>(&mut io),
                 _ => run_case::<Z>(&mut io),
             };
         } else {
